@@ -637,8 +637,38 @@ func BuildText(t *rapid.T, k ref.TextKind, forceOut bool, proto string, requeste
 // be taken): a CJK character, or - for the alphabetic codings - a base letter followed by a combining
 // mark, or a singleton canonical equivalent of a repertoire letter (Ohm / Kelvin / Angstrom sign): texts
 // a well-meant normalisation would fold into the repertoire.
+// nearMiss: for each alphabetic coding the letters and signs of the neighbouring repertoires that it does
+// NOT contain (GSM 7-bit: every Latin-1 / Latin Extended-A / Greek capital it lacks, e.g. c-cedilla, a-acute;
+// ASCII: the Latin-1 letters; Latin-1: Latin Extended-A) - the characters a well-meant alphabet extension or
+// a lenient table would let through.
+var nearMiss = func() map[ref.TextKind][]rune {
+	m := map[ref.TextKind][]rune{}
+	for r := rune(0x00A0); r <= 0x017F; r++ {
+		if _, ok := ref.GSMRune(r); !ok {
+			m[ref.KGSMUnpacked] = append(m[ref.KGSMUnpacked], r)
+		}
+		if r >= 0x0100 {
+			m[ref.KLatin1] = append(m[ref.KLatin1], r)
+		}
+		if r <= 0x00FF {
+			m[ref.KASCII] = append(m[ref.KASCII], r)
+		}
+	}
+	for r := rune(0x0391); r <= 0x03C9; r++ {
+		if _, ok := ref.GSMRune(r); !ok {
+			m[ref.KGSMUnpacked] = append(m[ref.KGSMUnpacked], r)
+		}
+	}
+	m[ref.KGSMUnpacked] = append(m[ref.KGSMUnpacked], '`', 0x00, 0x7f)
+	m[ref.KGSMPacked] = m[ref.KGSMUnpacked]
+	return m
+}()
+
 func outOfRepertoire(t *rapid.T, proto string, requested int) []rune {
 	k, ok := KindOf(proto, requested)
+	if ok && len(nearMiss[k]) > 0 && rapid.IntRange(0, 2).Draw(t, "nearmiss") == 0 {
+		return []rune{rapid.SampledFrom(nearMiss[k]).Draw(t, "nearmissrune")}
+	}
 	if ok && (k == ref.KASCII || k == ref.KLatin1 || k.IsGSM()) && rapid.Bool().Draw(t, "outkind") {
 		return []rune(rapid.SampledFrom([]string{"e\u0301", "a\u0300", "u\u0308", "n\u0303", "\u2126", "\u212a", "\u212b", "\u037e", "A\u030a"}).Draw(t, "outseq"))
 	}
@@ -742,6 +772,37 @@ func GridCases() []Case {
 	out = append(out, Case{Proto: "smpp", Coding: 99, Ref: 7, Text: vk.Hex([]byte(w)), Note: "152 x a + [ + 152 x b"})
 	out = append(out, unitClassCases()...)
 	out = append(out, exactLimitCases()...)
+	out = append(out, nearMissCases()...)
+	return out
+}
+
+// nearMissCases: every character just outside an alphabetic coding's repertoire (nearMiss), alone in a
+// short text and in a two-part text: the coding cannot represent it, UCS-2 must be reported and the
+// character must come back unchanged.
+func nearMissCases() []Case {
+	var out []Case
+	type pc struct {
+		proto  string
+		coding int
+		k      ref.TextKind
+	}
+	for _, x := range []pc{{"smpp", 0, ref.KGSMUnpacked}, {"smpp", 99, ref.KGSMPacked}, {"smpp", 1, ref.KASCII}, {"cmpp", 0, ref.KASCII}, {"smpp", 3, ref.KLatin1}} {
+		for i, r := range nearMiss[x.k] {
+			if r == 0 || ref.Latin1Disputed(r) {
+				continue
+			}
+			short := "abc" + string(r) + "def"
+			out = append(out, Case{Proto: x.proto, Coding: x.coding, Ref: byte(i), Text: vk.Hex([]byte(short)), Note: fmt.Sprintf("near miss U+%04X for %v", r, x.k)})
+			if i%4 == 0 {
+				long := ""
+				for len(long) < 100 {
+					long += "Hello world "
+				}
+				long += string(r) + long
+				out = append(out, Case{Proto: x.proto, Coding: x.coding, Ref: byte(i), Text: vk.Hex([]byte(long)), Note: fmt.Sprintf("near miss U+%04X for %v, two parts", r, x.k)})
+			}
+		}
+	}
 	return out
 }
 
